@@ -135,6 +135,14 @@ def run(ck, prog, ctx):
             return False
         return None
 
+    # a private helper whose only unchecked push is a complete insertion-at-the-searched-position (`with_id`) checks order and uniqueness itself:
+    # its callers are not sinks, the helper is judged as a sink of its own
+    safe_wrappers = {wid for wid in wrappers if all(split_insert(prog.bodies[wid], bi_) is True for bi_, t_, vi_ in direct_sinks(prog.bodies[wid]))}
+    if safe_wrappers:
+        sinks = [x for x in sinks if not (x[2].callee.res in safe_wrappers)]
+        for wid in sorted(safe_wrappers):
+            for bi_, t_, vi_ in direct_sinks(prog.bodies[wid]):
+                sinks.append((prog.bodies[wid], bi_, t_, vi_))
     cnt = {}
     for b, bi, t, vi in sorted(sinks, key=lambda x: (x[0].id, x[1])):
         si = split_insert(b, bi)
@@ -162,6 +170,10 @@ def run(ck, prog, ctx):
         cnt[base] = i + 1
         indexed = "ids" in field_names(val, IDS_OWNER) and not any(a[0] == "call" and a[1].endswith("::next") for a in val)
         ok = (bool(iterated) or indexed) and not bad_params
+        own_iter = [a for a in val if a[0] == "call" and a[1].endswith("::next") and any(("<" + ap + " ") in a[2] or ("<" + ap + "<") in a[2] for ap in prog.adts if ap.startswith("term::") and not ap.endswith("group::Iter"))]
+        if not ok and not bad_params and own_iter:
+            ck.undecided("TAINT", "append/%s/%d" % (base, i), "%s appends unchecked the ids a private iterator of the crate yields (%s): whether they come sorted and without repetition is that iterator's business, which this rule does not analyse" % (b.short, re.sub(r" as .*$", "", own_iter[0][2]).lstrip("<")), where=b.where(t.line))
+            continue
         msg = ("%s appends unchecked an id %s" % (b.short, ("taken from iterating a group" if iterated else "taken from a group's id vector by index") if ok else ("that is the caller-supplied `%s` (order/uniqueness not checked)" % bad_params[0] if bad_params else "that does not come from iterating a group")))
         ck.ob("TAINT", "append/%s/%d" % (base, i), ok, msg, where=b.where(t.line))
     ck.floor("TAINT", "unchecked append sites", len(sinks), 2)
@@ -543,6 +555,39 @@ def run(ck, prog, ctx):
             continue
         nq += 1
         bi, t, kind = ops[0]
+        # the operator's result is the ONLY result: an early return with a copy of one side (`if related { return other.all_parent_ids().clone() }`)
+        # answers without intersecting / uniting
+        from engines import result_sources
+        extra_src = [x for x in result_sources(b, pvn) if not (x[0] == "call" and x[1] is t)]
+        # ... unless the copy is the right answer there: under `upper.parent_of(lower)` / `lower.child_of(upper)` / identity the intersection of the
+        # two (exclusive) ancestor sets is the UPPER term's set and their union the LOWER term's set
+        justified = []
+        for x in list(extra_src):
+            if x[0] != "call" or x[1].callee.method != "clone" or not x[1].args or need_ids is not False:
+                continue
+            src_at = pv.of_operand(b, x[1].args[0])
+            zs = params_of(src_at, b.id)
+            if len(zs) != 1 or "all_parents" not in field_names(src_at, "HpoTerm"):
+                continue
+            z_ = next(iter(zs))
+            cbb = next(bi_ for bi_, t_ in b.calls() if t_ is x[1])
+            for gbi, gt in b.calls():
+                gm = gt.callee.method
+                if gm not in ("child_of", "parent_of", "eq") or len(gt.args) != 2:
+                    continue
+                g0, g1 = params_of(pvn.of_operand(b, gt.args[0]), b.id), params_of(pvn.of_operand(b, gt.args[1]), b.id)
+                if not (len(g0) == 1 and len(g1) == 1 and g0 | g1 == {1, 2}):
+                    continue
+                if not any(b.edge_dominates(e, cbb) for e in positive_edges(b, pvn, gbi)):
+                    continue
+                upper = {1, 2} if gm == "eq" else (g1 if gm == "child_of" else g0)
+                lower = {1, 2} if gm == "eq" else (g0 if gm == "child_of" else g1)
+                if z_ in (upper if want == "and" else lower):
+                    justified.append(x)
+                    break
+        extra_src = [x for x in extra_src if not any(x is j for j in justified)]
+        ck.ob("ROLE", name + "/only-result", not extra_src, "%s returns %s" % (name, "the operator's result on every path" if not extra_src else "on some path `%s` instead of the result of `%s`" % (
+            (extra_src[0][1].callee.method + "(..)") if extra_src[0][0] == "call" else "a constant / another value", "&" if kind == "and" else "|")), where=b.where(extra_src[0][1].line if extra_src and extra_src[0][0] == "call" else t.line))
         ck.ob("ROLE", name + "/operator", kind == want, "%s combines the ancestor sets with `%s` (expected `%s`)" % (name, "&" if kind == "and" else "|", "&" if want == "and" else "|"), where=b.where(t.line))
         (p0, f0), (p1, f1) = sides(b, t.args[0]), sides(b, t.args[1])
         ok = p0 == {1} and p1 == {2} or (p0 == {2} and p1 == {1})
